@@ -15,15 +15,17 @@ OUTSIDE = ('outside: INT96 (writer returns NOT_IMPLEMENTED), GZIP/ZSTD (library 
 ONE = 'B,b,I,i,L,l,F,f,D,d,S,s,X,x'                 # every writable physical type, REQUIRED and OPTIONAL, one column
 TWO = 'Il,Sd,bX,sF,Di,Lb,xS,fI'                     # two columns of different types
 THREE = 'Ils,SdB,xFi,bLD,sIX'                       # three columns
+FOUR = 'IlsB,SdbX,xFiL,DsIb'                        # four columns
 TAIL = 'I,i,L,l,F,D,S,s,X,x,IL,SX,lsD'              # types whose PLAIN bytes can spell  <footer length> "PAR1"
 
 
-def layout_txt(rows, nrg, batch):
+def layout_txt(rows, nrg, batch, ps=1):
+    if ps > 1: return '%d rows in %d row group(s), %d rows per write_batch call, all calls of a chunk share ONE page (page_size %d)' % (rows, nrg, batch, ps)
     return '%d rows in %d row group(s), %s' % (rows, nrg, ('%d rows per write_batch call = per page' % batch) if batch else 'one page per column chunk')
 
 
-def common_defs(specs, rows, nrg, batch, flavour, codec, api, stats=1):
-    return ['-DVC_SPECS="%s"' % specs, '-DVC_ROWS=%d' % rows, '-DVC_NRG=%d' % nrg, '-DVC_BATCH=%d' % batch, '-DVC_FLAVOUR=%d' % flavour,
+def common_defs(specs, rows, nrg, batch, flavour, codec, api, stats=1, ps=1):
+    return ['-DVC_PS=%d' % ps, '-DVC_SPECS="%s"' % specs, '-DVC_ROWS=%d' % rows, '-DVC_NRG=%d' % nrg, '-DVC_BATCH=%d' % batch, '-DVC_FLAVOUR=%d' % flavour,
             '-DCODEC=' + CODECS[codec], '-DVC_FILEAPI=%d' % api, '-DVC_STATS=%d' % stats]
 
 
@@ -31,31 +33,31 @@ def tag(fam, rows, nrg, batch, flavour, codec, api):
     return '%s/r%d-g%d-b%d-f%d/%s/%s' % (fam, rows, nrg, batch, flavour, codec, 'file' if api else 'path')
 
 
-def cut(fam, specs, rows, nrg, batch, flavour, codec, om, api=0, stats=1, timeout=900):
+def cut(fam, specs, rows, nrg, batch, flavour, codec, om, api=0, stats=1, timeout=900, ps=1):
     n = specs.count(',') + 1
     return E2('cut/%s/%s' % (OPEN[om], tag(fam, rows, nrg, batch, flavour, codec, api)), H,
-              defines=['-DVC_MODE=1', '-DVC_OPEN=%d' % om] + common_defs(specs, rows, nrg, batch, flavour, codec, api, stats),
+              defines=['-DVC_MODE=1', '-DVC_OPEN=%d' % om] + common_defs(specs, rows, nrg, batch, flavour, codec, api, stats, ps),
               all_lib=True, timeout=timeout, stubs=STUBS, expect_paths_min=40 * n, max_paths=400000, exclude='F-FOOTER-REQUIRED',
               bounds='concrete tables {%s} (%s content, null pattern %d), %s, %s, writer created by %s, write_statistics=%d; file written by the real writer, then '
-                     'EVERY cut length 0..len-1 (one path each), opened via %s; %s' % (specs, 'tail-like' if flavour >= 8 else 'ordinary', flavour & 7, layout_txt(rows, nrg, batch), codec, API[api], stats, OPEN[om], OUTSIDE))
+                     'EVERY cut length 0..len-1 (one path each), opened via %s; %s' % (specs, 'tail-like' if flavour >= 8 else 'ordinary', flavour & 7, layout_txt(rows, nrg, batch, ps), codec, API[api], stats, OPEN[om], OUTSIDE))
 
 
-def sink(fam, specs, rows, nrg, batch, flavour, codec, api=0, timeout=900):
+def sink(fam, specs, rows, nrg, batch, flavour, codec, api=0, timeout=900, ps=1):
     n = specs.count(',') + 1
     return E2('sink-fault/%s' % tag(fam, rows, nrg, batch, flavour, codec, api), H,
-              defines=['-DVC_MODE=2'] + common_defs(specs, rows, nrg, batch, flavour, codec, api), all_lib=True, timeout=timeout, stubs=STUBS, expect_paths_min=8 * n,
+              defines=['-DVC_MODE=2'] + common_defs(specs, rows, nrg, batch, flavour, codec, api, ps=ps), all_lib=True, timeout=timeout, stubs=STUBS, expect_paths_min=8 * n,
               bounds='write history of concrete tables {%s}, %s, %s, writer created by %s; ONE sink fault at every fwrite (short count, or absorbed and reported by the next '
-                     'fflush/fclose), fflush and fclose of the history; more than one fault per history is outside; %s' % (specs, layout_txt(rows, nrg, batch), codec, API[api], OUTSIDE))
+                     'fflush/fclose), fflush and fclose of the history; more than one fault per history is outside; %s' % (specs, layout_txt(rows, nrg, batch, ps), codec, API[api], OUTSIDE))
 
 
-def abort(fam, specs, rows, nrg, batch, flavour, codec, api=0, fault=False, badop=False, timeout=900):
+def abort(fam, specs, rows, nrg, batch, flavour, codec, api=0, fault=False, badop=False, timeout=900, ps=1):
     n = specs.count(',') + 1
     nm = 'abort%s%s/%s' % ('+sinkfault' if fault else '', '+badcall' if badop else '', tag(fam, rows, nrg, batch, flavour, codec, api))
-    return E2(nm, H, defines=['-DVC_MODE=3'] + (['-DVC_ABORT_FAULT'] if fault else []) + (['-DVC_ABORT_BADOP'] if badop else []) + common_defs(specs, rows, nrg, batch, flavour, codec, api),
+    return E2(nm, H, defines=['-DVC_MODE=3'] + (['-DVC_ABORT_FAULT'] if fault else []) + (['-DVC_ABORT_BADOP'] if badop else []) + common_defs(specs, rows, nrg, batch, flavour, codec, api, ps=ps),
               all_lib=True, timeout=timeout, stubs=STUBS, expect_paths_min=3 * n,
               bounds='carquet_writer_abort after EVERY prefix of the call history (write_batch per column and page, new_row_group) of concrete tables {%s}, %s, %s, writer created by %s%s%s; '
                      'leak check, and no file left behind for the path writer; %s' % (
-                         specs, layout_txt(rows, nrg, batch), codec, API[api], '; one sink fault at every fwrite/fflush/fclose of the prefix and of abort itself' if fault else '',
+                         specs, layout_txt(rows, nrg, batch, ps), codec, API[api], '; one sink fault at every fwrite/fflush/fclose of the prefix and of abort itself' if fault else '',
                          '; two rejected write_batch calls (column index out of range) before the abort' if badop else '', OUTSIDE))
 
 
@@ -86,45 +88,54 @@ def legacy(codecs):
 def obligations(tier):
     q = tier == 'quick'
     o = legacy(['unc', 'snappy', 'lz4'])
-    if q:
-        # a slice of the deep matrix: every type, several pages and row groups, both writer constructors
-        for om in (0, 1, 2):
-            o.append(cut('one', ONE, 6, 2, 2, 0, 'unc', om))
-            o.append(cut('tail', TAIL, 6, 2, 2, 8, 'unc', om, api=1))
-        o.append(sink('one', ONE, 6, 3, 2, 0, 'snappy'))
-        o.append(sink('two', TWO, 6, 3, 2, 0, 'unc', api=1))
-        o.append(abort('one', ONE, 6, 3, 2, 0, 'unc'))
-        o.append(abort('two', TWO, 6, 3, 2, 0, 'lz4', api=1, fault=True))
-        return o
-    # ---------------------------------------------------------------- thorough
-    LAYOUTS = [(6, 1, 2), (6, 2, 2), (9, 3, 2), (7, 2, 0), (8, 1, 3), (12, 3, 1)]          # (rows, row groups, rows per page; 0 = one page per chunk)
+    CN = ('unc', 'snappy', 'lz4')
+    # (rows, row groups, rows per write_batch call = per page; 0 = one page per chunk)
+    LAYOUTS = [(6, 2, 2), (9, 3, 2)] if q else [(6, 1, 2), (6, 2, 2), (9, 3, 2), (7, 2, 0), (8, 1, 3), (12, 3, 1)]
+    BIG = [] if q else [(16, 2, 4), (24, 3, 4), (20, 1, 5), (18, 3, 3)]
     for om in (0, 1, 2):
-        for cn in ('unc', 'snappy', 'lz4'):
+        for cn in CN:
             for li, (rows, nrg, batch) in enumerate(LAYOUTS):
                 api = (li + om) % 2
                 o.append(cut('one', ONE, rows, nrg, batch, 0, cn, om, api=api))
+                o.append(cut('tail', TAIL, rows, nrg, batch, 8, cn, om, api=1 - api))
+                if q: continue
                 o.append(cut('one', ONE, rows, nrg, batch, 1, cn, om, api=1 - api))       # other null pattern (all-NULL pages), other constructor
                 o.append(cut('two', TWO, rows, nrg, batch, 0, cn, om, api=api))
-                o.append(cut('tail', TAIL, rows, nrg, batch, 8, cn, om, api=api))
-                o.append(cut('tail', TAIL, rows, nrg, batch, 9, cn, om, api=1 - api))
-            for rows, nrg, batch in LAYOUTS[:3]:
+                o.append(cut('tail', TAIL, rows, nrg, batch, 9, cn, om, api=api))
+            for li, (rows, nrg, batch) in enumerate(BIG):
+                api = (li + om) % 2
+                o.append(cut('one', ONE, rows, nrg, batch, li % 2, cn, om, api=api))
+                o.append(cut('two', TWO, rows, nrg, batch, 1 - li % 2, cn, om, api=1 - api))
+                o.append(cut('tail', TAIL, rows, nrg, batch, 8 + li % 2, cn, om, api=api))
+                o.append(cut('four', FOUR, rows, nrg, batch, 0, cn, om, api=1 - api, timeout=1500))
+            for rows, nrg, batch in (LAYOUTS[:1] if q else LAYOUTS[:3]):
                 o.append(cut('three', THREE, rows, nrg, batch, 0, cn, om, api=om % 2))
+            if q and cn != 'unc': continue
             o.append(cut('allnull', 'b,i,l,f,d,s,x,is', 6, 2, 2, 3, cn, om))
             o.append(cut('nonulls', 'b,i,s,x,ls', 6, 2, 2, 2, cn, om, stats=0))
             o.append(cut('zero-rows', 'I,s,Il', 0, 1, 0, 0, cn, om))
-    for cn in ('unc', 'snappy', 'lz4'):
+            o.append(cut('shared-page', 'I,s,b,Sl,xD', 8, 2, 3, 0, cn, om, api=om % 2, ps=1048576))     # several write_batch calls fill ONE page
+    for cn in CN:
         for api in (0, 1):
-            for rows, nrg, batch in LAYOUTS:
+            for rows, nrg, batch in LAYOUTS + BIG[:2]:
                 o.append(sink('one', ONE, rows, nrg, batch, 0, cn, api))
-                o.append(sink('two', TWO, rows, nrg, batch, 1, cn, api))
                 o.append(abort('one', ONE, rows, nrg, batch, 0, cn, api))
-                o.append(abort('two', TWO, rows, nrg, batch, 1, cn, api, fault=True))
+                o.append(abort('two', TWO, rows, nrg, batch, 1, cn, api, fault=True, timeout=1500))
+                if q: continue
+                o.append(sink('two', TWO, rows, nrg, batch, 1, cn, api))
                 o.append(abort('one', ONE, rows, nrg, batch, 1, cn, api, badop=True))
             o.append(sink('three', THREE, 9, 3, 2, 0, cn, api))
             o.append(abort('three', THREE, 9, 3, 2, 0, cn, api, fault=True, badop=True))
+            if q and cn != 'unc': continue
             o.append(sink('zero-rows', 'I,s,Il', 0, 1, 0, 0, cn, api))
             o.append(abort('zero-rows', 'I,s,Il', 0, 1, 0, 0, cn, api, fault=True))
+            o.append(sink('shared-page', 'I,s,b,Sl,xD', 8, 2, 3, 0, cn, api, ps=1048576))
+            o.append(abort('shared-page', 'I,s,b,Sl,xD', 8, 2, 3, 0, cn, api, fault=True, ps=1048576))
+            if q: continue
+            o.append(sink('four', FOUR, 16, 2, 4, 0, cn, api, timeout=1500))
+            o.append(abort('four', FOUR, 12, 3, 2, 0, cn, api, fault=True, timeout=1500))
     for om in (0, 1, 2):
         for specs, rows, nrg, batch, trow in (('S', 4, 1, 0, 3), ('S', 8, 2, 2, 7), ('SI', 9, 3, 3, 8), ('Sl', 6, 2, 1, 5), ('Sdx', 6, 2, 2, 4), ('Sb', 12, 3, 2, 11)):
+            if q and rows > 8: continue
             o.append(tailsym(specs, rows, nrg, batch, trow, 'unc', om, api=om % 2))
     return o
